@@ -330,8 +330,9 @@ func Build(o Opts) (*Persona, error) {
 		cfg.AA = aa
 		df[15] = lds.DG15(spki)
 	}
-	if len(caInfos) > 0 && (needDG14 || src.Intn(2) == 0) {
-		needDG14 = true // PACE documents normally repeat the PACEInfo in DG14
+	if len(caInfos) > 0 {
+		// ICAO 9303-11 9.2.11: the SecurityInfos of EF.CardAccess SHALL also be stored in DG14
+		needDG14 = true
 	}
 	if needDG14 {
 		df[14] = lds.DG14(dg14Infos...)
@@ -397,8 +398,13 @@ func Build(o Opts) (*Persona, error) {
 		ca := caInfos
 		if o.DowngradeCA {
 			// an entry that DG14 does not contain (e.g. a weaker suite injected by an attacker)
-			ca = append([][]byte{lds.PACEInfo(chipsim.PaceOID("GM", "3DES"), 2, big.NewInt(int64(o.PaceID)))}, caInfos...)
-			cfg.PACE = append(cfg.PACE, chipsim.PaceEntry{OID: chipsim.PaceOID("GM", "3DES"), ParamID: o.PaceID})
+			// (a weak suite on another parameter id, so that it can never coincide with a genuine entry)
+			otherID := 8
+			if o.PaceID == 8 {
+				otherID = 9
+			}
+			ca = append([][]byte{lds.PACEInfo(chipsim.PaceOID("GM", "3DES"), 2, big.NewInt(int64(otherID)))}, caInfos...)
+			cfg.PACE = append(cfg.PACE, chipsim.PaceEntry{OID: chipsim.PaceOID("GM", "3DES"), ParamID: otherID})
 		}
 		mf[chipsim.FidCardAccess] = lds.CardAccess(ca...)
 		p.Files["CardAccess"] = mf[chipsim.FidCardAccess]
